@@ -13,6 +13,26 @@ impl Tree {
     pub fn shape(&self) -> String {
         match self { Tree::Leaf(v) => format!("{}", v.len()), Tree::Node(l, r) => format!("({} {})", l.shape(), r.shape()) }
     }
+    /// `( [ w w ] ( [ w ] [ ] ) )`: leaves in brackets, nodes in parentheses, observations as hex words
+    pub fn encode(&self) -> String {
+        match self { Tree::Leaf(v) => format!("[ {} ]", fws(v)).replace("  ", " "), Tree::Node(l, r) => format!("( {} {} )", l.encode(), r.encode()) }
+    }
+    pub fn decode(tokens: &[String], pos: &mut usize) -> Option<Tree> {
+        let t = tokens.get(*pos)?.as_str();
+        *pos += 1;
+        match t {
+            "[" => {
+                let mut v = Vec::new();
+                loop {
+                    let w = tokens.get(*pos)?; *pos += 1;
+                    if w == "]" { return Some(Tree::Leaf(v)); }
+                    v.push(f64::from_bits(u64::from_str_radix(w, 16).ok()?));
+                }
+            }
+            "(" => { let l = Tree::decode(tokens, pos)?; let r = Tree::decode(tokens, pos)?; if tokens.get(*pos)? != ")" { return None; } *pos += 1; Some(Tree::Node(Box::new(l), Box::new(r))) }
+            _ => None,
+        }
+    }
     pub fn leaves(&self) -> usize { match self { Tree::Leaf(_) => 1, Tree::Node(l, r) => l.leaves() + r.leaves() } }
 }
 
@@ -285,6 +305,15 @@ pub fn huge_counts<E: Est>(out: &mut Out, data: &[f64], extra: &[f64]) {
         }
         let mut g = e.clone(); let pg = words(&g); g.merge(&small); out.t(E::NAME, "merge", &pg, &words(&small), &words(&g));
         let mut h = small.clone(); let ph = words(&h); h.merge(&e); out.t(E::NAME, "merge", &ph, &words(&e), &words(&h));
+        // lengths add exactly, however lopsided the operands
+        if let (Some(le), Some(ls)) = (e.len(), small.len()) {
+            out.x(g.len() == Some(le + ls) && h.len() == Some(le + ls) && f.len() == Some(le + 1),
+                  || format!("{}: lengths do not add at count {}: merge(short chunk of {}) -> {:?}, short chunk.merge -> {:?}, add -> {:?}", E::NAME, le, ls, g.len(), h.len(), f.len()));
+        }
+        // merging the empty estimator, either way round, changes nothing
+        { let mut z = e.clone(); z.merge(&E::new()); let mut y = E::default(); y.merge(&e);
+          out.x(words(&z) == words(&e) && y.accessors().iter().zip(e.accessors().iter()).all(|(a, b)| a.val.word() == b.val.word()),
+                || format!("{}: merging the empty estimator at count {} changed the state or the statistics", E::NAME, nn)); }
         if round >= 20 {
             for (nm, s) in [("merge(short chunk)", &g), ("short chunk.merge", &h)] {
                 let a = s.accessors();
